@@ -213,3 +213,59 @@ def h_inputs_emitted(ctx, tier, seed):
 
 
 HARNESSES.append(_h("c04_inputs_emitted", h_inputs_emitted, "blocks {u1}, {u2,u3}; reference input naming nothing / u1 / u2 / another UTxO; collateral naming u3 or absent"))
+
+
+# ---- a wallet wider than the search window (MAX_SEARCH_SPACE_SIZE = 50) ---------------------------
+
+class WideStore(c03.Store):
+    """N concrete UTxOs at party A (10 + i lovelace, no tokens): the narrowed search space is as
+    large as or larger than the window the selector looks at"""
+
+    def __init__(s, ctx, n):
+        s.n = n
+        eng = ctx.eng
+        T = TIR(eng)
+        s.T = T
+        s.refs = [utxo_ref(T, [0xC0 + (i % 32)] * 31 + [i], 0) for i in range(n)]
+        s.addr = [c03.ADDR_A] * n
+        s.bits = 16
+        s.ada = [z3.BitVecVal(10 + i, 128) for i in range(n)]
+        s.has_tok = [False] * n
+        s.tok = [z3.BitVecVal(0, 128)] * n
+
+
+def h_wide_wallet(ctx, tier, seed, n=51):
+    """two single-UTxO blocks of the same party over a wallet of n >= 50 UTxOs: still disjoint"""
+    eng = ctx.eng
+    store = WideStore(ctx, n)
+    store.install(eng)
+    # candidate order: as the code produces it (one order; the permutation override of C03 is for small stores)
+    for name in list(eng.overrides):
+        if name.endswith("::sort_candidates"):
+            eng.overrides[name] = lambda eng_, args: VecM([e[0] for e in models.deref(args[0]).entries if eng_.decide(e[1])])
+    T = store.T
+    blocks = []
+    for name in ("a", "b"):
+        iq = T.st("InputQuery", address=T.address(c03.addr_bytes(c03.ADDR_A)), min_amount=T.assets([T.asset(T.none(), T.none(), T.num(5))]), ref=T.none(), many=False, collateral=False)
+        blocks.append(input_block(T, name, iq))
+    tx = mk_tx(T, inputs=blocks)
+    anytir = eng.mk_variant("AnyTir", "V1Beta0", [tx])
+    st = Agg("Store", None, 0, [])
+    try:
+        r = models.deref(eng.block_on(eng.call_fn(eng.fns["resolve"], [anytir, ref_to_value(st)])))
+    except Panic as p:
+        eng.stats.panic_paths += 1
+        ctx.violation("resolve panicked: %s" % p.kind, site=p.site, shape="resolve panics: %s" % p.kind)
+        return
+    ctx.require(r.variant == "Ok", "a wallet of %d UTxOs serves two small blocks" % n, shape="resolution fails on a wide wallet")
+    if r.variant != "Ok":
+        return
+    out_tx = models.deref(models.deref(r.fields[0]).fields[0])
+    sets = bound_sets(ctx, store, out_tx)
+    all_idx = (sets.get("a") or []) + (sets.get("b") or [])
+    ctx.require(len(all_idx) == 2 and None not in all_idx, "each block is bound to one UTxO of the store")
+    ctx.require(len(all_idx) == len(set(all_idx)), "the sets bound to distinct input blocks are pairwise disjoint", shape="one UTxO bound to two input blocks (wallet wider than the search window)")
+
+
+HARNESSES.append(_h("c04_wide_wallet", lambda ctx, tier, seed: h_wide_wallet(ctx, tier, seed, 51 if tier == "quick" else 70),
+                    "2 blocks of one party over a concrete wallet of 51 (quick) / 70 (thorough) UTxOs: the narrowed search space reaches MAX_SEARCH_SPACE_SIZE", max_paths=2000, time_limit=1200, max_steps=20000000))
